@@ -24,6 +24,10 @@ SOURCES = ["find all @/(a)(b)(c)\\3\\2\\1/", "find all @/((a)|b)+c/", "find all 
            "set p to pattern digit begin set a to 1 set b to 2 set c to 3 set d to 4 set e to 5 if match == '1' then return true end end\nset f to transform return match + '!' end\nreplace all p with f",
            "set f to transform set a to 1 set b to 2 set c to 3 set d to 4 set e to 5 set g to 6 debug g end\nreplace all 'a' with f"]
 TEXTS = ["abccba", "aabc", "12-34", "(())", "aa bb", "xy", "ab-cd", "abbcc", "1-22-", "aabab"]
+# texts beyond one read window, different from each other: reads of thousands of bytes (whole file, long literals, long gaps of a replace) in flight in
+# several goroutines at once - with programs that stay linear on them
+BIG_TEXTS = ["a" * 4100, "b" * 4099 + "c", "xy"]
+BIG_SOURCES = ["find all whole file", "find all (whole file) = all", "replace top 1 'c' with 'C'", "find top 1 '" + "a" * 4098 + "'"]
 
 
 def generate_footprint():
@@ -54,7 +58,9 @@ def run(ctx):
     exe = vh.build_harness(race=True)
     rounds = 3 if quick else 20
     cases = [{"op": "conc", "sources_hex": [vh.hexs(s) for s in SOURCES], "texts_hex": [vh.hexs(t) for t in TEXTS],
-              "goroutines": 8 if quick else 16, "iters": 100 if quick else 400}]
+              "goroutines": 8 if quick else 16, "iters": 100 if quick else 400},
+             {"op": "conc", "sources_hex": [vh.hexs(s) for s in BIG_SOURCES], "texts_hex": [vh.hexs(t) for t in BIG_TEXTS],
+              "goroutines": 6, "iters": 4 if quick else 40}]
     ev = 0
     races = 0
     mism = []
@@ -62,7 +68,7 @@ def run(ctx):
     for rnd in range(rounds):
         d = tempfile.mkdtemp(prefix="race-", dir=vh.scratch())
         fin, fout = os.path.join(d, "in.jsonl"), os.path.join(d, "out.jsonl")
-        open(fin, "w").write(json.dumps(dict(cases[0], id=0)) + "\n")
+        open(fin, "w").write("".join(json.dumps(dict(c, id=k)) + "\n" for k, c in enumerate(cases)))
         env = dict(os.environ, GORACE="halt_on_error=0 exitcode=0 log_path=" + os.path.join(d, "race"))
         p = subprocess.run([exe, "-in", fin, "-out", fout, "-timeout", "120000"], capture_output=True, text=True, env=env, cwd=d, timeout=300)
         reports = ""
@@ -74,7 +80,7 @@ def run(ctx):
             races += 1
             first = reports[reports.index("DATA RACE") - 20:][:1500]
             ctx.violation("the race detector reports unsynchronised conflicting accesses while goroutines compile and run concurrently",
-                          {"sources": SOURCES, "texts": TEXTS, "goroutines": cases[0]["goroutines"], "race_report": first})
+                          {"sources": SOURCES + BIG_SOURCES, "texts": TEXTS + [t[:40] + "... (%d bytes)" % len(t) for t in BIG_TEXTS], "goroutines": cases[0]["goroutines"], "race_report": first})
         if os.path.exists(fout):
             for line in open(fout):
                 r = json.loads(line)
